@@ -117,6 +117,10 @@ func (j *IsolationJob) Run(deadline time.Time) *runner.JobResult {
 	res.Executions, res.States = res.Transitions, int64(len(prefixes))
 	res.Outcomes = []string{fmt.Sprintf("probes>0:%v", probes > 0), "batches"}
 	res.Samples = []any{map[string]any{"isolation_probes": probes}}
+	if probes == 0 && res.Transitions == 0 {
+		res.Capped = true // the budget was spent before this job started: nothing was probed
+		return res
+	}
 	if probes == 0 {
 		res.HarnessErr = "the update hook never fired: the isolation probe is vacuous"
 	}
